@@ -12,7 +12,7 @@ EXPLANATION = ('Guarded-act rules on ln::inbound_payment, ln::channelmanager and
 	'comparisons; the receive pipeline reaches handle_claimable_htlc only through verify Ok (when a recipient-created secret is expected) and '
 	'the custom final-CLTV guard; PaymentClaimable is built only in handle_claimable_htlc on the Ok(true) edge of the MPP completion check; '
 	'the completion predicate equals its timer-side sibling; a payment being claimed cannot gain parts; claim_payment_internal claims parts only '
-	'behind the amount re-check and fails every part otherwise. Decides these conditions on all paths; HMAC/ChaCha correctness and credited amounts '
+	'behind the amount re-check and fails every part otherwise. Also: the custom-CLTV delta bytes are cleared before (never after) the expiry is decoded; what PaymentClaimable reports (amount, deadline, channels) is aggregated over the complete HTLC set after the completing part was added. Decides these conditions on all paths; HMAC/ChaCha correctness and credited amounts '
 	'are not decided.')
 ASSUMPTIONS = ['fixed_time_eq and the HMAC implementation are correct', 'amount arithmetic is not verified beyond comparison shapes']
 
